@@ -9,6 +9,14 @@ from ..interp import *
 LIB = {}
 
 
+def accept_kwargs(kwargs, *names):
+	"""the listed keywords are understood by the model (their effect is covered by what the model says or is irrelevant to it);
+	any other keyword is not interpreted -> the call is outside the subset"""
+	extra = sorted(set(kwargs) - set(names))
+	if extra:
+		raise Unsupported(f'keyword arguments {extra} are not interpreted by the library model')
+
+
 def lib(*names):
 	def deco(f):
 		for n in names:
@@ -39,6 +47,7 @@ def _len(eng, st, args, kwargs, node):
 
 @lib('builtins.range', 'cython.parallel.prange')
 def _range(eng, st, args, kwargs, node):
+	accept_kwargs(kwargs, 'nogil', 'schedule', 'num_threads', 'chunksize')     # prange scheduling: any interleaving is covered by the frame obligations
 	if len(args) == 1:
 		start, stop = 0, args[0]
 	elif len(args) == 2:
@@ -354,6 +363,8 @@ def _lower(eng, st, obj, args, kwargs, node, site):
 @lib('method:encode')
 def _encode(eng, st, obj, args, kwargs, node, site):
 	v = st.deref(obj)
+	if kwargs or len(args) > 1:
+		raise Unsupported('encode() with an error handler / further arguments')       # e.g. errors='ignore' silently drops characters
 	if isinstance(v, str):
 		yield st, v.encode(*args)
 		return
